@@ -18,6 +18,11 @@ def norm(e, clone_transparent=False):
     if t == 'call':
         if len(e[2]) == 1 and (is_ident_call(e[1]) and (clone_transparent or not e[1].endswith('clone'))):
             return norm(e[2][0], clone_transparent)
+        if len(e) > 3 and e[3] and (e[1].endswith('Unsigned::to_usize') or e[1] == 'lightmotif::dense::DenseMatrix::columns'):
+            from .expr import const_call
+            kc = const_call(e[1], e[3])
+            if kc is not None:
+                return ('kc', kc[1])
         args = tuple(norm(a, clone_transparent) for a in e[2])
         # m[MatrixCoordinates::new(r, c)] is m[r][c] (dense.rs Index<MatrixCoordinates>: data[row][col])
         if e[1].endswith(('ops::index::Index::index', 'ops::index::IndexMut::index_mut')) and len(args) == 2 and args[1][0] == 'call' \
